@@ -10,9 +10,9 @@ theorem filter_not_has_nil (m : OMap) : m.filter (fun e => !has [] e.hash) = m :
   apply List.filter_eq_self.mpr
   intro a _; rfl
 
-/-- the new `loadHead`, unfolded -/
-theorem loadHead_eq (acl : Acl) (fetch : Nat → OMap) (amount : Int) (L : Log) (h : Nat) :
-    loadHead acl fetch amount L h =
+/-- `loadHead1`, unfolded -/
+theorem loadHead1_eq (acl : Acl) (fetch : Nat → OMap) (amount : Int) (L : Log) (h : Nat) :
+    loadHead1 acl fetch amount L h =
       match joinSize acl.canAppend L (ofList (fetch h)) (ofList (findHeads (ofList (fetch h)))) L.id (-1) with
       | .ok L' =>
         if amount > -1 && (values L').length > amount then (trim L' amount.toNat).map bumpClock else .ok L'
@@ -21,12 +21,12 @@ theorem loadHead_eq (acl : Acl) (fetch : Nat → OMap) (amount : Int) (L : Log) 
 
 /-- **one head into a fresh log**: all the fetched entries are merged (`L1`), then the listing is cut
 to its last `amount` values when `0 ≤ amount < |fetched|`, and left whole otherwise -/
-theorem loadHead_fresh {U : List Entry} (hU : HashDet U) (hT : TieFree U) (hM : ClockMono U)
+theorem loadHead1_fresh {U : List Entry} (hU : HashDet U) (hT : TieFree U) (hM : ClockMono U)
     (acl : Acl) (fetch : Nat → OMap) (amount : Int) (id h : Nat)
     (hF : Fetched U (Log.empty id) (fetch h))
     (hacc : ∀ e ∈ fetch h, acceptable acl.canAppend e = true) :
     ∃ L1, Inv U L1 ∧ L1.entries.Nodup ∧ (∀ e, e ∈ L1.entries ↔ e ∈ fetch h) ∧
-      ∃ L', loadHead acl fetch amount (Log.empty id) h = .ok L' ∧ L'.id = id ∧
+      ∃ L', loadHead1 acl fetch amount (Log.empty id) h = .ok L' ∧ L'.id = id ∧
         values L' = if amount > -1 ∧ amount < (values L1).length
           then (values L1).drop ((values L1).length - amount.toNat) else values L1 := by
   have hG : Good U (Log.empty id) := good_empty U id
@@ -37,7 +37,7 @@ theorem loadHead_fresh {U : List Entry} (hU : HashDet U) (hT : TieFree U) (hM : 
   have hmem : ∀ e, e ∈ ofList (fetch h) ↔ e ∈ fetch h := mem_ofList hU hF.sub
   have hL1id : (joinCore (Log.empty id) (ofList (fetch h)) (ofList (findHeads (ofList (fetch h))))
       (Log.empty id).id).id = id := by rw [joinCore_eq _ _ _ _ rfl]; rfl
-  rw [loadHead_eq]
+  rw [loadHead1_eq]
   generalize hm : ofList (fetch h) = m at *
   have hmnd : m.Nodup := hm ▸ ofList_nodup _
   have hdiff : ∀ e ∈ m, e ∈ difference m (ofList (findHeads m)) (Log.empty id) :=
@@ -89,9 +89,9 @@ theorem loadHead_fresh {U : List Entry} (hU : HashDet U) (hT : TieFree U) (hM : 
 /-- **`Load` of one head never panics** — for EVERY log (with holes, partially loaded, whatever its
 heads and link index), every fetched log and every amount: the merge asks for no trim, and the trim is
 only asked for when the listing is longer than the amount (after the `fix:` commit, finding F30) -/
-theorem loadHead_never_panics (acl : Acl) (fetch : Nat → OMap) (amount : Int) (L : Log) (h : Nat) :
-    loadHead acl fetch amount L h ≠ .error .panic := by
-  rw [loadHead_eq]
+theorem loadHead1_never_panics (acl : Acl) (fetch : Nat → OMap) (amount : Int) (L : Log) (h : Nat) :
+    loadHead1 acl fetch amount L h ≠ .error .panic := by
+  rw [loadHead1_eq]
   generalize ofList (fetch h) = m
   rcases joinSize_cases acl.canAppend L m (ofList (findHeads m)) (-1) with ⟨_, e, he, hne⟩ | ⟨_, hj⟩
   · rw [he]
@@ -106,5 +106,39 @@ theorem loadHead_never_panics (acl : Acl) (fetch : Nat → OMap) (amount : Int) 
       rw [ht]
       intro hc'; cases hc'
     · intro hc'; cases hc'
+
+/-! ### `loadHead`: only what the log does not hold is handed to `Join` (finding F36) -/
+
+theorem loadHead_def (acl : Acl) (fetch : Nat → OMap) (amount : Int) (L : Log) (h : Nat) :
+    loadHead acl fetch amount L h = loadHead1 acl (missingFetch L fetch) amount L h := rfl
+
+/-- on a log that holds nothing (every freshly opened store) nothing is left out -/
+theorem missingFetch_empty (id : Nat) (fetch : Nat → OMap) (h : Nat) :
+    missingFetch (Log.empty id) fetch h = fetch h := filter_not_has_nil (fetch h)
+
+theorem loadHead_empty (acl : Acl) (fetch : Nat → OMap) (amount : Int) (id h : Nat) :
+    loadHead acl fetch amount (Log.empty id) h = loadHead1 acl fetch amount (Log.empty id) h := by
+  unfold loadHead loadHead1
+  rw [missingFetch_empty]
+
+theorem loadHead_fresh {U : List Entry} (hU : HashDet U) (hT : TieFree U) (hM : ClockMono U)
+    (acl : Acl) (fetch : Nat → OMap) (amount : Int) (id h : Nat)
+    (hF : Fetched U (Log.empty id) (fetch h))
+    (hacc : ∀ e ∈ fetch h, acceptable acl.canAppend e = true) :
+    ∃ L1, Inv U L1 ∧ L1.entries.Nodup ∧ (∀ e, e ∈ L1.entries ↔ e ∈ fetch h) ∧
+      ∃ L', loadHead acl fetch amount (Log.empty id) h = .ok L' ∧ L'.id = id ∧
+        values L' = if amount > -1 ∧ amount < (values L1).length
+          then (values L1).drop ((values L1).length - amount.toNat) else values L1 := by
+  rw [loadHead_empty]
+  exact loadHead1_fresh hU hT hM acl fetch amount id h hF hacc
+
+theorem loadHead_never_panics (acl : Acl) (fetch : Nat → OMap) (amount : Int) (L : Log) (h : Nat) :
+    loadHead acl fetch amount L h ≠ .error .panic :=
+  loadHead1_never_panics acl (missingFetch L fetch) amount L h
+
+/-- what is handed to `Join` is still a fetched log of this store -/
+theorem fetched_missing {U : List Entry} {L : Log} {fetch : Nat → OMap} {h : Nat}
+    (hF : Fetched U L (fetch h)) : Fetched U L (missingFetch L fetch h) :=
+  ⟨fun e he => hF.sub e (List.mem_filter.mp he).1, fun e he => hF.lid e (List.mem_filter.mp he).1⟩
 
 end Orbit
